@@ -15,6 +15,7 @@ ARG_REGS = ['rdi', 'rsi', 'rdx', 'rcx', 'r8', 'r9']
 RET_REG = 'rax'
 HEAP_REG, FREE_REG, TEMP_REGS = 'rbx', 'rbp', ['rcx']
 CALL_ALIGN = 0                # sp mod 16 required at a call instruction
+BODY_SP_CLASS = 8             # sp mod 16 in the routine body (entry 8, six pushes, 2048 spill bytes); re-derived by C13
 
 _reg = r'(?:r(?:ax|cx|dx|bx|bp|sp|si|di|8|9|1[0-5]))'
 _imm = r'(-?\d+)'
